@@ -10,6 +10,7 @@ import (
 	"strings"
 	"testing"
 	"testing/synctest"
+	"time"
 
 	"verif/sim"
 )
@@ -46,6 +47,13 @@ func TestSim(t *testing.T) {
 	if os.Getenv("VERIF_CLSTACK") != "" {
 		sim.DebugCloseStack = func(id int) { fmt.Fprintf(os.Stderr, "CLOSE %d\n%s\n", id, debug.Stack()) }
 	}
+	// Lazily initialised process state that costs a blocking system call must be
+	// set up before the simulation starts: during a system call sysmon may hand
+	// the only P to another thread, and the goroutine that made the call is
+	// re-queued behind those that were waiting - at a moment that depends on
+	// how loaded the machine is. time.Local reads /etc/localtime on first use
+	// (seen in world C19: first local-time formatting in the middle of a step).
+	_, _ = time.Now().Zone()
 	synctest.Test(t, func(t *testing.T) {
 		res := runWorld(world, seed, replay)
 		b, _ := json.Marshal(res)
